@@ -1,6 +1,7 @@
 import LyModel.Base
 import LyModel.Text.Drv
 import LyModel.Diff.Drv
+import LyModel.Diff.Drv13
 /-! Dispatch table of the line-protocol driver: one handler per component. -/
 namespace LyModel.Drv
 
@@ -9,6 +10,7 @@ def dispatch (comp op : String) (args : List String) : String :=
   | "echo" => "ok " ++ op ++ " " ++ " ".intercalate args
   | "text" => Text.Drv.handle op args
   | "diff" => Diff.Drv.handle op args
+  | "diff13" => Diff.Drv13.handle op args
   | _ => "err NoSuchComponent"
 
 end LyModel.Drv
